@@ -11,6 +11,7 @@ import RbV.Lemmas.KChainFwd
 import RbV.Lemmas.LcskppFinal
 import RbV.Lemmas.SdpkppUnion
 import RbV.Lemmas.KmerHash
+import RbV.Lemmas.Expand
 /-!
 # C19 — k-mer / q-gram indexing and sparse chaining are exact
 
@@ -278,6 +279,37 @@ example : (hmGet [1, 2] (hashKmers [1, 2, 1, 2] 2)).getD [] = [0, 2] ∧ kmerMat
   rw [hash_kmers_model_exact]; decide
 
 end kmer_hash
+
+/-! ## `expand_kmer_matches` (mirror model `RbV/Model/Expand.lean`) -/
+section expand_model
+open RbV.Model.Expand RbV.Model.Lcskpp RbV.Lemmas.Expand
+
+/-- **the mirror model of `expand_kmer_matches` returns a match list the chaining routines accept**: for every strictly
+sorted seed list — whatever the sequences, `k` and the mismatch budget — both walks end by their own condition (no fuel
+error), the result is strictly lexicographically sorted (hence duplicate-free: a walk along a diagonal stays strictly
+between the neighbouring elements of that diagonal) and contains every seed -/
+theorem expand_model_sorted (seq1 seq2 : List Nat) (k : Nat) (ms : List M) (allowed : Nat) (hs : ms.Pairwise lexLt) :
+    ∃ r, expandKmerMatches seq1 seq2 k ms allowed = .ok r ∧ r.Pairwise lexLt ∧ ∀ m ∈ ms, m ∈ r :=
+  expand_model_ok seq1 seq2 k ms allowed hs
+
+/-- the combinatorial core: a sweep that pushes, for each element of a list sorted along every diagonal, only positions
+of its diagonal strictly between the previous element of that diagonal and itself, never pushes a position twice nor a
+position of the list -/
+theorem diagonal_sweep_pushes_new_positions (key : M → Int) (l : List M) (bs : List (List M))
+    (hs : DiagSorted key l) (hb : BlocksOk key [] l bs) : (l ++ bs.flatten).Nodup := by
+  obtain ⟨h1, h2, _⟩ := blocks_nodup key l [] bs (by simpa using hs) hb
+  rw [List.nodup_append]
+  refine ⟨diagSorted_nodup key hs, h1, ?_⟩
+  intro a ha b hb' hab
+  subst hab
+  exact h2 a hb' (by simpa using ha)
+
+example : ∃ r, expandKmerMatches [1, 2, 3, 4, 5, 6] [1, 2, 3, 9, 5, 6] 2 [(0, 0), (4, 4)] 1 = .ok r ∧ r.Pairwise lexLt ∧
+    (0, 0) ∈ r ∧ (4, 4) ∈ r := by
+  obtain ⟨r, h1, h2, h3⟩ := expand_model_sorted [1, 2, 3, 4, 5, 6] [1, 2, 3, 9, 5, 6] 2 [(0, 0), (4, 4)] 1 (by simp [lexLt])
+  exact ⟨r, h1, h2, h3 _ (by simp), h3 _ (by simp)⟩
+
+end expand_model
 
 /-! ## chains -/
 
@@ -570,6 +602,20 @@ example : validChain [(0, 0), (1, 1), (2, 2), (5, 5), (6, 9)] 3 [0, 1, 4] = true
       [0, 1, 4].drop (match findIdx 3 0 [0, 1, 4] with | some ind => ind + 1 | none => 3)) = [0, 1, 2, 3] := by decide
 
 end sdpkpp_model
+
+section expand_then_chain
+open RbV.Model.Expand RbV.Model.Lcskpp
+
+/-- composition: chaining the expansion with the `lcskpp` model is optimal over the expanded list -/
+theorem lcskpp_on_expansion_optimal (seq1 seq2 : List Nat) (k : Nat) (ms : List M) (allowed : Nat) (hk : 0 < k)
+    (hs : ms.Pairwise lexLt) :
+    ∃ ex r, expandKmerMatches seq1 seq2 k ms allowed = .ok ex ∧ lcskpp ex k = .ok r ∧ validChain ex k r.path = true ∧
+      r.score = lcskDP ex k :=
+  let ⟨ex, h1, h2, _⟩ := expand_model_sorted seq1 seq2 k ms allowed hs
+  let ⟨r, h3, h4, _, h5, _⟩ := lcskpp_model_optimal ex k hk h2
+  ⟨ex, r, h1, h3, h4, h5⟩
+
+end expand_then_chain
 
 /-- the score counts `k` for the first match and every non-overlapping step and `1` for a diagonal continuation -/
 theorem score_counts (k : Nat) (a b : M) (r : List M) :
